@@ -132,6 +132,9 @@ def build(rng, f, ch, n):
 
 def run(ctx):
     if getattr(ctx, "replay", None):
+        from .. import c09twin
+        if c09twin.is_replay(open(ctx.replay).read()):
+            return c09twin.replay(ctx, ctx.replay)
         return ctx.replay_script(ctx.replay)
     quick = ctx.tier == "quick"
     mx, rows, bad = error_table(ctx)
